@@ -10,9 +10,13 @@ from pipeline import Pipeline, Gen
 import verifkit as vk
 
 
-def G(funds=(2, 1, 0), subs=(1, 2), nmeta=1):
-    """subs: class of the literal string behind each sub-denom slot (see TokenFactoryGen), nmeta: native denom has bank metadata"""
-    return {"act": "Genesis", "args": {"funds": list(funds), "subs": list(subs), "nmeta": nmeta}}
+def G(funds=(2, 1, 0), subs=(1, 2), nmeta=1, grants=()):
+    """subs: class of the literal string behind each sub-denom slot (see TokenFactoryGen), nmeta: native denom has bank metadata,
+    grants: fee allowances [granter, grantee] in genesis (the grantee may sign in the granter's name)"""
+    return {"act": "Genesis", "args": {"funds": list(funds), "subs": list(subs), "nmeta": nmeta, "grants": [list(p) for p in grants]}}
+
+
+R = {"act": "Reimport", "args": {"who": 0, "as": 0, "c": 0, "s": 0, "amt": 0, "new": 0}}
 
 
 def S(act, who, c=0, s=0, amt=0, new=0, as_=None):
@@ -29,6 +33,8 @@ class C16(Pipeline):
             # hostile sub-denomination strings ('..', './', '//', trailing '/', empty), genesis without native metadata
             Gen("TokenFactoryGen", "TokenFactoryGen_subs_cover", "bfs", tiers=("quick",), timeout=300),
             Gen("TokenFactoryGen", "TokenFactoryGen_subs_cover_big", "bfs", tiers=("thorough",), timeout=1200),
+            # every action also AFTER a genesis round trip (the round trip is part of the cover view)
+            Gen("TokenFactoryGen", "TokenFactoryGen_reimp_cover", "bfs", tiers=("quick", "thorough"), timeout=300),
             Gen("TokenFactoryGen", "TokenFactoryGen_sim", "simulate", num=350, depth=14, tiers=("quick",), timeout=300),
             Gen("TokenFactoryGen", "TokenFactoryGen_sim", "simulate", num=1500, depth=14, tiers=("thorough",), timeout=1200)]
     driver_pkg = "drivers/tokenfactory"
@@ -39,7 +45,8 @@ class C16(Pipeline):
     assumptions = [
         "every action is one really signed transaction (SIGN_MODE_DIRECT) delivered alone in its own block through FinalizeBlock/Commit of the full application (app.New, real ante chain and message router); every history runs on a fresh application with 2 bonded validators and 3 user accounts whose keys derive from VERIF_SEED",
         "message fields: Paloma's tokenfactory messages have no mint-to / burn-from field; the module mints to, burns from, charges and authorises Metadata.Creator, so attempts 'naming another address' set Metadata.Creator to an account that is not the signer (rejected by the ante chain unless a fee grant exists)",
-        "no fee grants exist between the tracked accounts (x/paloma's VerifyAuthorisedSignatureDecorator lets a grantee act for the granter; that delegation is property C03's subject)",
+        "delegated signing: fee allowances (x/feegrant BasicAllowance without limit or expiry) are written by genesis and never change within a history; x/paloma's VerifyAuthorisedSignatureDecorator then accepts a signer that is not the creator, and the model says the message acts for the creator (its denoms, its balance, its funds); granting / revoking / expiring allowances at run time is not modelled (property C03's subject)",
+        "Reimport is a genesis round trip of the WHOLE application (app.ExportAppStateAndValidators at the current height, InitChain of a fresh app.New on a fresh database with the exported validators and consensus parameters, one empty block), not only of x/tokenfactory and x/bank; the harness sets the consensus-node bech32 prefix like the node binary does",
         "the denom creation fee is the production default (params.DenomCreationFee = 10 GRAIN, paid by the creator into the community pool); it is modelled, not configured away: accounts are funded with whole multiples of the fee",
         "genesis set-up: x/mint inflation is set to zero so that the native supply is exactly observable; histories run on both genesis variants: the native denom ugrain with bank metadata (the definition of app.BankModule, as on the live chain) and without (what app.DefaultGenesis produces)",
         "sub-denominations: the model's sub-denom slots are bound per history to literal strings of hostile but valid classes (plain, with '/', '..' segments climbing 1/2/3 levels, './' prefix, '//' inside, trailing '/', empty); a factory denom is observed under the literal name factory/<creator>/<sub-denom as given>, and every other name appearing in the module's creator index, its authority records, bank metadata or bank supply is counted (C16.NoForeignDenoms); sub-denoms longer than the 44 byte limit and non-ASCII strings are not tried",
@@ -57,7 +64,25 @@ class C16(Pipeline):
                              S("Mint", 1, amt=2, **d11), S("Mint", 1, amt=1, **d12), S("Burn", 1, amt=1, **d11), S("Mint", 2, amt=1, **d11),
                              S("SetMetadata", 1, **d11), S("ChangeAdmin", 1, new=2, **d11), S("Mint", 2, amt=1, **d11), S("Burn", 1, amt=1, **d11),
                              S("Mint", 1, amt=1, c=0, s=1), S("Burn", 1, amt=1, c=0, s=1), S("SetMetadata", 2, **d11), S("Burn", 1, amt=1, **d12)])
-        return life + [
+        # genesis round trip after create / mint / hand-over / renounce / metadata, then everybody tries again
+        trips = []
+        for new in (0, 2):
+            for nmeta in (0, 1):
+                trips.append([G(nmeta=nmeta, grants=((1, 2),)), S("Create", 1, s=1), S("Mint", 1, amt=2, **d11), S("SetMetadata", 1, **d11),
+                              S("ChangeAdmin", 1, new=new, **d11), R, S("Mint", 1, amt=1, **d11), S("Burn", 1, amt=1, **d11),
+                              S("ChangeAdmin", 1, new=1, **d11), S("SetMetadata", 1, **d11), S("Mint", 2, amt=1, **d11), S("Burn", 2, amt=1, **d11),
+                              S("Create", 1, s=1), S("Create", 1, s=2), R, S("Mint", 1, amt=1, **d12), R, S("Burn", 1, amt=1, **d12)])
+        # delegated signing: account 2 holds account 1's fee allowance and signs in its name; account 3 does not
+        deleg = [
+            [G(grants=((1, 2),)), S("Create", 2, as_=1, s=1), S("Mint", 2, as_=1, amt=2, **d11), S("Mint", 3, as_=1, amt=1, **d11),
+             S("Burn", 2, as_=1, amt=1, **d11), S("Mint", 2, amt=1, **d11), S("SetMetadata", 2, as_=1, **d11), S("Mint", 1, as_=2, amt=1, **d11),
+             S("ChangeAdmin", 2, as_=1, new=2, **d11), S("Mint", 2, as_=1, amt=1, **d11), S("Mint", 2, amt=1, **d11), S("Burn", 2, amt=1, **d11),
+             R, S("Mint", 2, as_=1, amt=1, **d11), S("Burn", 2, amt=1, **d11)],
+            [G(funds=(2, 2, 1), grants=((1, 2), (2, 3))), S("Create", 1, s=1), S("Create", 3, as_=2, s=1), S("Mint", 3, as_=2, amt=1, c=2, s=1),
+             S("Mint", 3, as_=1, amt=1, **d11), S("Mint", 2, as_=1, amt=2, **d11), S("Burn", 2, as_=1, amt=1, **d11), S("Burn", 3, as_=2, amt=1, c=2, s=1),
+             S("Burn", 3, as_=2, amt=1, c=2, s=1)],
+        ]
+        return life + trips + deleg + [
             # admin hand-over, then the old admin acting, then the new admin burning what it does not own
             [G(), S("Create", 1, s=1), S("Mint", 1, amt=2, **d11), S("ChangeAdmin", 1, new=2, **d11), S("Mint", 1, amt=1, **d11),
              S("Burn", 1, amt=1, **d11), S("Burn", 2, amt=1, **d11), S("Mint", 2, amt=1, **d11), S("Burn", 2, amt=1, **d11),
@@ -87,6 +112,10 @@ class C16(Pipeline):
             heads.setdefault(e["h"], e)
         if any(e["act"] != "Init" or e["i"] != 0 for e in heads.values()):
             raise vk.Broken("a history does not start with the driver's Init observation")
+        if not any(e["act"] == "Reimport" and e.get("res") == "ok" for e in events):
+            raise vk.Broken("vacuous drive: no genesis round trip executed")
+        if not any(e["act"] in ("Mint", "Burn") and e.get("res") == "ok" and e["args"]["who"] != e["args"]["as"] for e in events):
+            raise vk.Broken("vacuous drive: no delegated mint / burn was accepted")
         for a in ("Create", "Mint", "Burn", "ChangeAdmin", "SetMetadata"):
             n_ok = sum(1 for e in events if e["act"] == a and e.get("res") == "ok")
             n_fail = sum(1 for e in events if e["act"] == a and e.get("res") == "fail")
@@ -190,6 +219,26 @@ class C16(Pipeline):
         evs = copy.deepcopy(byh[h4])
         evs[k4]["obs"]["x"][0] += 1
         jobs["foreign_denom_rejected"] = (evs, lambda v: any(n == "C16.NoForeignDenoms" for n, _, _ in v.monfail))
+        # 6. the admin of a stored denom recorded differently after a genesis round trip -> ReimportPreserves must fail
+        h6, k6 = find(lambda e, pre: e["act"] == "Reimport" and e.get("res") == "ok" and any(r["auth"] == 1 for r in e["obs"]["den"]))
+        if h6 is None:
+            return {"ok": False, "why": "no genesis round trip with a stored denom recorded"}
+        evs = copy.deepcopy(byh[h6])
+        r = next(r for r in evs[k6]["obs"]["den"] if r["auth"] == 1)
+        r["admin"] = r["admin"] % 3 + 1
+        jobs["reimport_change_rejected"] = (evs, lambda v: any(n == "C16.ReimportPreserves" for n, _, _ in v.monfail))
+        # 7. an accepted delegated mint credited to the signer instead of the creator -> OwnBalanceOnly must fail
+        h7, k7 = find(lambda e, pre: e["act"] == "Mint" and e.get("res") == "ok" and e["args"]["who"] != e["args"]["as"])
+        if h7 is None:
+            return {"ok": False, "why": "no accepted delegated mint recorded"}
+        evs = copy.deepcopy(byh[h7])
+        a = evs[k7]["args"]
+        for e2 in evs[k7:]:
+            for r in e2["obs"]["den"]:
+                if r["c"] == a["c"] and r["s"] == a["s"]:
+                    r["bal"][a["as"] - 1] -= a["amt"]
+                    r["bal"][a["who"] - 1] += a["amt"]
+        jobs["mint_to_signer_rejected"] = (evs, lambda v: any(n == "C16.OwnBalanceOnly" for n, _, _ in v.monfail))
         t0 = time.time()
         with ThreadPoolExecutor(max_workers=len(jobs)) as ex:
             vs = dict(zip(jobs, ex.map(lambda j: self.validate(j[0]), jobs.values())))
